@@ -119,6 +119,18 @@ def producers(ctx, r):
         return p
 
     out.append(("fill_blackbox_nested_bb", fill))
+
+    # readers: what the parsers build from text the writers emit for lint-clean circuits (constants 0/1/x included)
+    cx = gen.rand_circuit(r, n_in=r.randint(1, 3), n_gates=r.randint(2, 6), consts=0.5, xconst=0.5)
+    k = r.choice(["0", "1", "x"])
+    cx.add("kc", k)
+    cx.add("kc_load", "and", fanin=["kc", sorted(cx.inputs())[0]], output=True)
+    bbs = list({id(b): b for b in seqc.blackboxes.values()}.values())
+    out.append(("io.verilog_to_circuit(gates)", lambda: cg.io.verilog_to_circuit(cg.io.circuit_to_verilog(cx), cx.name)))
+    out.append(("io.verilog_to_circuit(assign)", lambda: cg.io.verilog_to_circuit(cg.io.circuit_to_verilog(cx, behavioral=True), cx.name)))
+    out.append(("io.verilog_to_circuit(blackboxes)", lambda: cg.io.verilog_to_circuit(cg.io.circuit_to_verilog(seqc), seqc.name, blackboxes=bbs)))
+    out.append(("io.verilog_to_circuit(fast)", lambda: cg.io.verilog_to_circuit(cg.io.circuit_to_verilog(c), c.name, fast=True)))
+    out.append(("io.bench_to_circuit", lambda: cg.io.bench_to_circuit(cg.io.circuit_to_bench(c), c.name)))
     return out
 
 
